@@ -70,11 +70,7 @@ def expand(job, level):
 
 
 def canary_job():
-    ch = {'N': 4, 'par': [-1, 0, 0, 0], 'kind': [cg.COMPOUND, cg.ORTH, cg.BASIC, cg.BASIC][:4],
-          'init': [2, -1, -1, -1], 'tr': [[2, 3, 1]]}
-    ch = {'N': 3, 'par': [-1, 0, 0], 'kind': [cg.ORTH, cg.BASIC, cg.BASIC], 'init': [-1, -1, -1],
-          'tr': [[1, 2, 1]]}
-    ch['tr'] = [[0, 0, 1]]
+    ch = {'N': 3, 'par': [-1, 0, 0], 'kind': [cg.ORTH, cg.BASIC, cg.BASIC], 'init': [-1, -1, -1], 'tr': [[0, 0, 1]]}
     return {'chart': ch}, {'name': 'canary', 'N': 3, 'M': 1, 'K': 1, 'namings': ['id'], 'send': 0}
 
 
